@@ -8,6 +8,8 @@ def run(spec):
     from vf.xh import loader
     loader.install(rewrite=False)
     mod = importlib.import_module(spec["module"])
+    if hasattr(mod, "custom_replay"):  # scenarios whose environment is not threads + queues (real fork()ed processes: C18)
+        return mod.custom_replay(spec)
     from vf.bmc import replay
     out = replay.run_replay(mod.make, spec["cfg"], spec["schedule"], spec.get("params") or {},
                             spec["query"] if spec["query"] in ("deadlock", "witness", "prefix") else "assert", faults=spec.get("faults"))
